@@ -13,26 +13,54 @@ ID = "C12"
 RULE = ("class chains of C01 (aliases, private names, kw_only, init=False, converters, validators, frozen, slots, "
         "cache_hash, inheritance) x histories {hash taken before, a field reassigned before (mutable classes)} x "
         "operation {evolve, assoc} x change sets (random subsets of init aliases / field names, sometimes an unknown "
-        "name). Non-trivial = at least one change or one converter/init=False field; distinct = distinct (class spec, history, op, changes)")
+        "name; new values are fresh tokens, None, the empty string, or a value EQUAL to the field's current one) x "
+        "harness-only variation the model is independent of: the instance's class is the leaf or a plain subclass of it "
+        "(with or without __slots__ = ()); every passed value is a new object, either of a str subclass or a plain str "
+        "(so an equal value has the same or a different type than the current one). assoc runs on every layout "
+        "(dict classes below slotted attrs classes, plain classes in between, plain subclasses) except exception classes. "
+        "Non-trivial = at least one change or one converter/init=False field; distinct = distinct (class spec, history, op, changes)")
 ASSUMPTIONS = c01.ASSUMPTIONS + [
-    "assoc is not exercised on dict classes below slotted attrs classes: copy.copy loses fields there (known finding K4 of C10)",
+    "assoc is not exercised on exception classes (copy.copy of a BaseException re-runs the constructor with .args)",
+    "identity of stored values is judged for the fields the property speaks about: assoc -- every field; evolve -- init "
+    "fields without converter (a converter's result is whatever the converter returns); passed values are new objects, "
+    "so 'is the passed object' and 'is the original's object' never coincide except for None / the empty string, where "
+    "'passed' is reported first on both sides",
     "invariants are observed against an instance rebuilt from the result's own field values (eq, hash incl. cached hash, frozenness)",
 ]
 EXHAUSTIVE = {"quick": False, "thorough": False}
 BUDGET_S = {"quick": 40, "thorough": 420}
 LEVEL_TEXT = ("Lean: evolve is defined through the initializer model, so the C01/C02 theorems apply to its result; theorems "
               "C12_evolve_is_init, C12_original_untouched, C12_unknown_typeerror, C12_assoc_spec, C12_assoc_unknown_notfound, "
-              "C12_model_meets_spec. Tied to /repo by differential correspondence over class chains x histories x change sets, "
-              "observing result values, the original afterwards, exception kind, and eq/hash/frozenness of the result against "
-              "an instance rebuilt from its values (detects stale cached hashes).")
+              "C12_evolve_identity, C12_assoc_identity (named fields hold the very object given -- also when it equals the "
+              "old one -- and the others share the original's), C12_model_meets_spec. Tied to /repo by differential "
+              "correspondence over class chains (incl. mixed slotted/dict storage and plain subclasses) x histories x change "
+              "sets, observing result values read back with getattr, which object each field holds (identity with the "
+              "passed / the original's object), the original afterwards, exception kind, and eq/hash/frozenness of the "
+              "result against an instance rebuilt from its values (detects stale cached hashes).")
 
 
 def _history(h, ctor, hist):
     classes = ib.build(h)
     C = classes[-1]
-    inst, obs = ib.construct(h, ctor, None, True)
-    if obs["exc"] is not None:
-        return None, None, C
+    ps = hist.get("plain_sub")
+    if ps:
+        # the instance's class is a plain (undecorated) subclass of the leaf: same fields, same initializer, but
+        # `type(inst).__dict__` has no __slots__ (or an empty one) whatever the storage of the fields is
+        L = C
+        C = type("PS", (L,), {"__module__": L.__module__, **({"__slots__": ()} if ps == "slots" else {})})
+        inst = C.__new__(C)
+        ib.SELF[0] = inst
+        del ib.TRACE[:]
+        try:
+            C.__init__(inst, *[ib.decode(v) for v in ctor["pos"]], **{k: ib.decode(v) for k, v in ctor["kw"]})
+        except BaseException:  # noqa: BLE001
+            return None, None, C
+        finally:
+            del ib.TRACE[:]
+    else:
+        inst, obs = ib.construct(h, ctor, None, True)
+        if obs["exc"] is not None:
+            return None, None, C
     ib.SELF[0] = inst
     # warm-up: evolve/assoc instances of ancestor classes and of an ad-hoc subclass first (anything cached
     # per class by evolve/assoc must not leak along the inheritance chain)
@@ -46,7 +74,7 @@ def _history(h, ctor, hist):
             pass
     if hist.get("warm_sub"):
         try:
-            Sub = attr.s(these={"zz_extra": attr.ib(default="zz")}, slots=False)(type("Sub", (C,), {}))
+            Sub = attr.s(these={"zz_extra": attr.ib(default="zz")}, slots=False)(type("Sub", (classes[-1],), {}))
             s_ = Sub(*[ib.decode(v) for v in ctor["pos"]], **{k: ib.decode(v) for k, v in ctor["kw"]})
             attr.evolve(s_)
             attr.assoc(s_)
@@ -69,10 +97,23 @@ def _history(h, ctor, hist):
     return inst, ib.read_values(inst, names), C
 
 
-def make_case(h, ctor, hist, op, changes, cur):
+def make_case(h, ctor, hist, op, changes, cur, passed_as="sub"):
     run, is_define, cls_on = ib.run_in(h)
     return {"base": {"run": run, "call": {"pos": [], "kw": []}, "isDefine": is_define, "clsOnSet": cls_on},
-            "op": op, "cur": cur, "changes": changes, "hspec": h, "ctor": ctor, "hist": hist}
+            "op": op, "cur": cur, "changes": changes, "hspec": h, "ctor": ctor, "hist": hist, "passed_as": passed_as}
+
+
+def _passed(v, mode):
+    """the object passed for protocol value `v`: always a NEW object (so that identity tells it from the object
+    the original holds, also when the two are equal); mode "sub": an instance of a str subclass, mode "plain": a
+    plain str built at run time (strings shorter than 2 characters are shared by the interpreter: str subclass)"""
+    if v == "None":
+        return None
+    if mode == "plain" and len(v) >= 2:
+        out = "".join((v[:1], v[1:]))
+        if type(out) is str and out is not v:
+            return out
+    return ib.Fresh(v)
 
 
 def gen_cases(tier, rng):
@@ -91,8 +132,10 @@ def gen_cases(tier, rng):
         fields = ib.expected_fields(h)
         frozen = ib.leaf_frozen(h)
         ctor = ib.gen_call(rng, h, malformed=0.0)
+        anc_slotted = any(cs["kind"] == "attrs" and ib.leaf_slots(cs) for cs in h["classes"][:-1])
         for _ in range(3):
-            hist = {"hash_before": rng.random() < 0.6, "reassign": [], "warm": [], "warm_sub": rng.random() < 0.3}
+            hist = {"hash_before": rng.random() < 0.6, "reassign": [], "warm": [], "warm_sub": rng.random() < 0.3,
+                    "plain_sub": rng.choice([None, None, None, None, None, "dict", "dict", "slots"])}
             if len(h["classes"]) > 1 and rng.random() < 0.6:
                 for i, cs in enumerate(h["classes"][:-1]):
                     if cs["kind"] == "attrs" and cs.get("init") is not False:
@@ -105,30 +148,35 @@ def gen_cases(tier, rng):
                 break
             if any(v is not None and (v == "NOTHING" or v.startswith("exc:")) for _, v in cur):
                 continue
+            curd = dict(map(tuple, cur))
             init_fields = [f for f in fields if f.get("init", True)]
-            if any(dict(map(tuple, cur)).get(f["name"]) is None for f in init_fields):
+            if any(curd.get(f["name"]) is None for f in init_fields):
                 continue  # an init field is unset on the original (K3 shapes): evolve's precondition fails
             op = rng.choice(["evolve", "evolve", "assoc"])
             if op == "assoc" and any(v is None for _, v in cur):
                 op = "evolve"      # copying needs every field set (C10's stated precondition)
-            if op == "assoc":
-                leaf_slots = ib.leaf_slots(h["classes"][-1])
-                anc_slots = any(cs["kind"] == "attrs" and ib.leaf_slots(cs) for cs in h["classes"][:-1])
-                anc_gs = any(cs["kind"] == "attrs" and cs.get("getstate_setstate") for cs in h["classes"][:-1])
-                if (not leaf_slots and (anc_slots or anc_gs)) or ib.run_in(h)[0]["cfg"]["isExc"] or h["classes"][0].get("exc_base"):
-                    op = "evolve"
+            if op == "assoc" and (ib.run_in(h)[0]["cfg"]["isExc"] or h["classes"][0].get("exc_base")):
+                op = "evolve"
             if op == "evolve":
-                keys = [f.get("alias") or ib.default_alias(f["name"]) for f in init_fields]
+                keys = [(f.get("alias") or ib.default_alias(f["name"]), f["name"]) for f in init_fields]
             else:
-                keys = [f["name"] for f in fields]
+                keys = [(f["name"], f["name"]) for f in fields]
             k = rng.randint(0, len(keys))
             chosen = rng.sample(keys, k)
             if rng.random() < 0.12:
-                chosen.append(rng.choice(["nope", "x_", "_" + (keys[0] if keys else "q")]))
-                chosen = list(dict.fromkeys(chosen))
-            changes = [[key, rng.choice(["None", "None", ""]) if rng.random() < 0.2 else f"n{i + 1}"]
-                       for i, key in enumerate(chosen)]
-            yield make_case(h, ctor, hist, op, changes, cur)
+                chosen.append((rng.choice(["nope", "x_", "_" + (keys[0][0] if keys else "q")]), None))
+                chosen = list({c[0]: c for c in chosen}.values())
+            changes = []
+            for i, (key, fname) in enumerate(chosen):
+                r = rng.random()
+                if r < 0.2:
+                    val = rng.choice(["None", "None", ""])
+                elif r < 0.5 and fname is not None and curd.get(fname) is not None:
+                    val = curd[fname]      # EQUAL to what the field holds now (but a distinct object, see _passed)
+                else:
+                    val = f"n{i + 1}"
+                changes.append([key, val])
+            yield make_case(h, ctor, hist, op, changes, cur, rng.choice(["sub", "plain"]))
 
 
 def defines(case):
@@ -152,13 +200,14 @@ def observe(case):
     ib.SELF_CLASS[0] = C
     exc = None
     res = None
+    passed = {k: _passed(v, case.get("passed_as", "sub")) for k, v in case["changes"]}
     try:
         with warnings.catch_warnings():
             warnings.simplefilter("ignore")
             if case["op"] == "evolve":
-                res = attr.evolve(inst, **{k: ib.decode(v) for k, v in case["changes"]})
+                res = attr.evolve(inst, **passed)
             else:
-                res = attr.assoc(inst, **{k: ib.decode(v) for k, v in case["changes"]})
+                res = attr.assoc(inst, **passed)
     except BaseException as e:  # noqa: BLE001
         exc = ib.exc_enum(e)
     finally:
@@ -169,14 +218,40 @@ def observe(case):
     if cur != case["cur"]:
         orig = [["<history not reproducible>", None]]
     if exc is not None:
-        return {"exc": exc, "values": [], "orig": orig, "fresh": False, "invariants": False}
+        return {"exc": exc, "values": [], "orig": orig, "fresh": False, "invariants": False, "ident": []}
     ib.SELF[0] = res
     values = ib.read_values(res, names)
+    # which object each judged field of the result holds, read back with getattr: the one passed for it, the
+    # original's, another one
+    ident = []
+    unset = object()
+    for f in ib.expected_fields(h):
+        if case["op"] == "evolve":
+            if not f.get("init", True):
+                continue
+            key = f.get("alias") or ib.default_alias(f["name"])
+        else:
+            key = f["name"]
+        try:
+            rv = getattr(res, f["name"])
+        except BaseException:  # noqa: BLE001
+            ident.append([f["name"], "unset"])
+            continue
+        try:
+            ov = getattr(inst, f["name"])
+        except BaseException:  # noqa: BLE001
+            ov = unset
+        if key in passed and rv is passed[key]:
+            ident.append([f["name"], "passed"])
+        elif rv is ov:
+            ident.append([f["name"], "orig"])
+        else:
+            ident.append([f["name"], "other"])
     fresh = res is not inst and type(res) is type(inst)
     # invariants: compare with an instance rebuilt from the result's own values
     inv = True
     try:
-        rebuilt = C.__new__(C)
+        rebuilt = type(inst).__new__(type(inst))
         for n in names:
             try:
                 object.__setattr__(rebuilt, n, getattr(res, n))
@@ -202,7 +277,7 @@ def observe(case):
             inv = False
     except Exception:  # noqa: BLE001
         inv = False
-    return {"exc": None, "values": values, "orig": orig, "fresh": bool(fresh), "invariants": inv}
+    return {"exc": None, "values": values, "orig": orig, "fresh": bool(fresh), "invariants": inv, "ident": ident}
 
 
 def nontrivial(case, model):
@@ -217,6 +292,17 @@ def dist(case, obs):
     d["reassigned"] = bool(case["hist"].get("reassign"))
     d["warm"] = len(case["hist"].get("warm", [])) + (10 if case["hist"].get("warm_sub") else 0)
     d["none_change"] = any(v == "None" for _, v in case["changes"])
+    curd = {k: v for k, v in case["cur"]}
+    by_key = {}
+    for a in case["base"]["run"]["attrs"]:
+        by_key[a["alias"] if case["op"] == "evolve" else a["name"]] = a
+    d["equal_change"] = sum(1 for k, v in case["changes"] if k in by_key and curd.get(by_key[k]["name"]) == v and v != "None")
+    d["passed_as"] = case.get("passed_as", "sub")
+    d["plain_sub"] = case["hist"].get("plain_sub") or "no"
+    # storage layout: where the instance's class keeps the changed fields
+    cls_slots = case["base"]["run"]["cfg"]["slots"] if not case["hist"].get("plain_sub") else case["hist"]["plain_sub"] == "slots"
+    slot_changed = any(k in by_key and by_key[k]["isSlot"] for k, _ in case["changes"])
+    d["layout"] = ("cls-slots" if cls_slots else "cls-dict") + ("/changes-a-slot-field" if slot_changed else "")
     return d
 
 
@@ -230,6 +316,10 @@ def shrink(case):
         yield dict(case, hist=dict(case["hist"], warm=[]))
     if case["hist"].get("warm_sub"):
         yield dict(case, hist=dict(case["hist"], warm_sub=False))
+    if case["hist"].get("plain_sub"):
+        yield dict(case, hist=dict(case["hist"], plain_sub=None))
+    if case.get("passed_as") == "plain":
+        yield dict(case, passed_as="sub")
     for i, (k, v) in enumerate(ch):
         if v in ("None", ""):
             yield dict(case, changes=ch[:i] + [[k, "n9"]] + ch[i + 1:])
